@@ -26,14 +26,14 @@ PROPS = {
                      "policies x {execute, rebuild schema, validate} is enumerated, histories are sampled; non-trivial = the library took "
                      "at least one multi-key map-iteration decision under a non-default policy or after a history; distinct = distinct "
                      "(scenario, number of order decisions) hashes"),
-    "C06": dict(level="exploration", race=False,
+    "C06": dict(level="exploration", race=False, race_thorough=True,
                 quick=dict(enum=True, seeds=4000), thorough=dict(enum=True, seconds=420),
                 rule="one evaluation = one history of Get+ExecutePlan / plan re-execution / Reset / schema replacement over a pool of "
                      "near-collision requests under seeded cache knobs (MaxEntries 1-4 or default, Normalize, tiny MaxQueryBytes, nil "
                      "cache); every ordered pair of pool requests (a, b, a) x Normalize on/off is enumerated, longer histories are "
                      "sampled; after every operation the response must equal graphql.Do from scratch and the entry count must respect "
                      "the configured bound; non-trivial = at least one cache hit or more than two operations; distinct = distinct scenarios"),
-    "C15": dict(level="exploration", race=False,
+    "C15": dict(level="exploration", race=False, race_thorough=True,
                 quick=dict(enum=True, seeds=4000), thorough=dict(enum=True, seconds=420),
                 rule="one evaluation = one simulated subscription: producer, library forwarder, per-event executors, consumer (prompt / "
                      "slow / stops) and the cancellation action interleaved by the seeded scheduler over 0-5 events (ok / nullable failure "
@@ -46,7 +46,7 @@ PROPS = {
                      "plan cache, interleaved by the seeded scheduler at client steps, instrumented callbacks and the library's yield "
                      "hooks; plain and race builds; non-trivial = at least one context switch between tasks; distinct = distinct "
                      "scheduler trace hashes"),
-    "C20": dict(level="exploration", race=False,
+    "C20": dict(level="exploration", race=False, race_thorough=True,
                 quick=dict(enum=False, seeds=3000), thorough=dict(enum=False, seconds=420),
                 rule="one evaluation = one plan (prepared directly, through the plain or the normalising cache, or re-planned per call) "
                      "executed 1-9 times by 1-3 interleaved clients, each execution with its own root token, variables, runtime-type "
